@@ -116,7 +116,7 @@ class C10(BaseCheck):
              'scales.timer_queue:TimerQueue.Schedule')
   REQUIRED_ANCHORS = ANCHORS
   REQUIRED_CLASSES = ('new-head-while-sleeping', 'past-deadline', 'tie', 'cancel-head',
-                      'boundary', 'far-deadlines', 'deadline-exactly-on-tick', 'action-raises', 'action-blocks', 'long-schedule-history')
+                      'boundary', 'far-deadlines', 'deadline-exactly-on-tick', 'action-raises', 'action-blocks', 'long-schedule-history', 'many-actions-still-running')
   ASSUMPTIONS = ('virtual clock: no timer lateness is injected (J=0), so lateness bounds are exact',
                  'rounded deadline computed in exact rationals; actions within 2us of a grid '
                  'point are exempt from the ordering clause only')
@@ -293,6 +293,22 @@ class C10(BaseCheck):
             gevent.sleep(rng.random() * rng.choice([0.5, 3, 12]) * reff * far_scale)
           slices[0] += 1
 
+    if idx % 24 == 13:
+      # many actions that have started and not finished yet (each of them waits for something): the
+      # actions that come due afterwards are nobody's business but the queue's
+      races.add('many-actions-still-running')
+      T0 = env.now + reff
+      for _i in range(rng.choice([130, 200])):
+        a = dict(id=len(actions) + 1, T=T0, sched_vt=env.now, cancel_vt=None, cancel_seq=None, runs=[], prod=-1, slice=0)
+        lo, hi = rounded_bounds(T0, res)
+        a['R_hi0'] = hi
+        a['sched_seq'] = env.emit('timer.schedule', aid=a['id'], T=T0)['seq']
+        actions.append(a)
+
+        def act(a=a):
+          a['runs'].append((env.now, env.emit('timer.run', aid=a['id'])['seq']))
+          gevent.sleep(400 * reff * far_scale + 5.0)
+        handles.append((a, q.Schedule(T0, act)))
     per = max(1, nops // nprod)
     gs = [gevent.spawn(producer, i, per) for i in range(nprod)]
     gevent.joinall(gs)
